@@ -159,7 +159,9 @@ def infer_field(model: Model, func: str, text: str) -> Optional[str]:
 
 
 DEFINITE_KINDS = ("subscript-store:const", "attr-aug:", "method:sort", "method:reverse", "method:clear", "method:pop", "method:remove",
-                  "method:insert", "method:extend", "method:popitem", "method:discard", "del", "global-rebind:", "subscript-aug", "aug-assign")
+                  "method:insert", "method:extend", "method:popitem", "method:discard", "del", "global-rebind:", "subscript-aug", "aug-assign",
+                  "method:popleft", "method:appendleft", "method:extendleft", "method:rotate", "method:move_to_end", "method:subtract",
+                  "method:difference_update", "method:intersection_update", "method:symmetric_difference_update")
 
 
 def _mentions(text: str, base: str) -> bool:
